@@ -273,11 +273,13 @@ Definition cl_count (c : consistency) : option Z :=
 
 (* The property as a predicate on ONE observed decision (used by the driver on the
    implementation's own output when it differs from the model):
-   - not idempotent: a retry only after a safe error;
+   - not idempotent: a retry only after a safe error; never IgnoreWriteError;
    - Default: never a retry at a serial consistency;
    - Fallthrough: never anything but DontRetry. *)
 Definition prop_decision_ok (p : policy) (ri : request_info) (d : decision) : bool :=
   (ri_idempotent ri || negb (is_retry d) || safe_errorb (ri_error ri))
+  (* a timed-out write is reported as done only for an idempotent request *)
+  && (ri_idempotent ri || match d with IgnoreWriteError => false | _ => true end)
   && match p with
      | PDefault => negb (is_serial (ri_consistency ri)) || negb (is_retry d)
      | PDowngrading => true
